@@ -752,7 +752,7 @@ def r5_write_after_copy(ctx, schema: Schema, mi, sc: ClassInfo) -> None:
                   'that change never reaches the container and is silently lost',
                   construct=f'{var} copied then modified', func=fi.qualname,
                   path=[n, lost[0]] if lost else None)
-  if n_sites < 5:
+  if n_sites < 2:
     raise AnalysisError(f'only {n_sites} message copy sites recognised')
 
 
